@@ -24,6 +24,7 @@ REQUIRED = ["DaeVerif.C15.Props." + n for n in (
     "chooseSelect_is_a_select",
     "measurement_once_always_for_positive_samples",
     "select_mem_selectAll",
+    "selectAll_lists_only_possible_answers",
     # tolerance clauses: need `mono` (a measured dialer keeps reporting a latency)
     "alive_set_invariant_partial",
     "switch_only_when_partial",
